@@ -202,10 +202,23 @@ fn check_follow(run: &mut Run, prepared: &Prepared, lines: &[String], desc: &str
     }
 }
 
+/// stands for a line that is not valid UTF-8 (cannot be read)
+const BAD: &str = "\u{0}BAD";
+
+/// file content of the lines; the `BAD` marker becomes a line of invalid UTF-8
+fn join_b(lines: &[String]) -> Vec<u8> {
+    let mut out = Vec::new();
+    for l in lines {
+        if l == BAD { out.extend_from_slice(b"\xff\xfe z"); } else { out.extend_from_slice(l.as_bytes()); }
+        out.push(b'\n');
+    }
+    out
+}
+
 /// the first k lines of the input files (file boundaries kept)
 fn take_lines(files: &[Vec<String>], k: usize) -> Vec<Vec<u8>> {
     let mut left = k;
-    files.iter().map(|f| { let n = left.min(f.len()); left -= n; join_lines(&f[..n]) }).collect()
+    files.iter().map(|f| { let n = left.min(f.len()); left -= n; join_b(&f[..n]) }).collect()
 }
 
 fn is_prefix(a: &[String], b: &[String]) -> bool { a.len() <= b.len() && a[..] == b[..a.len()] }
@@ -216,12 +229,13 @@ struct Base<'a> {
     files: &'a [Vec<String>],
     joined: Option<&'a [u8]>,
     joined_len: usize,
+    jpath: &'a std::path::Path,
     desc: &'a str,
     shape: &'a str,
 }
 
 fn check_point(run: &mut Run, b: &Base, unint: &BatchResult, clear: Clear) {
-    let file_bytes: Vec<Vec<u8>> = b.files.iter().map(|f| join_lines(f)).collect();
+    let file_bytes: Vec<Vec<u8>> = b.files.iter().map(|f| join_b(f)).collect();
     let n_lines: usize = b.files.iter().map(|f| f.len()).sum();
     let i = run_files_intr(b.prepared, &file_bytes, clear);
     let desc = format!("{} clear={:?}", b.desc, clear);
@@ -239,7 +253,7 @@ fn check_point(run: &mut Run, b: &Base, unint: &BatchResult, clear: Clear) {
     run.count(if i.cleared { "flag-cleared" } else { "clearing-point-not-reached" });
     // ----- correspondence -----
     if let Some(case) = model_case("intr", b.prepared, b.joined, &file_bytes, &format!(" {} {}", clear_s, stop_s)) {
-        let wire = format!("{} jl={}", i.res.wire(), i.join_calls);
+        let wire = if i.res.status == "ok" { format!("{} jl={}", i.res.wire(), i.join_calls) } else { format!("{} jl=-", i.res.wire()) };
         let progress = if !i.cleared { "never" } else if i.res.total_lines == 0 { "at0" } else if (i.res.total_lines as usize) < n_lines { "mid" } else { "end" };
         let tag = format!("{}|{}|{}|{}|{}|recs{}", b.shape, point, progress, i.res.status, if i.res.printed == unint.printed { "same" } else { "cut" }, i.res.records().len().min(3));
         run.case_with_desc(case, wire, tag, desc.clone());
@@ -276,7 +290,23 @@ fn check_point(run: &mut Run, b: &Base, unint: &BatchResult, clear: Clear) {
         }
     }
     // the run over exactly the lines consumed before the interruption
-    let prefix_run = run_files(b.prepared, &take_lines(b.files, consumed));
+    let prefix_run = if let (Clear::Join(_), Some(joined)) = (clear, b.joined) {
+        // an interrupted load leaves a partial index and no input line is consumed: what is printed cannot depend on
+        // the index, so the reference is the run over no input with an empty joined file
+        std::fs::write(b.jpath, b"").unwrap();
+        let r = run_files(b.prepared, &take_lines(b.files, 0));
+        std::fs::write(b.jpath, joined).unwrap();
+        if i.res.status.starts_with("err:") {
+            // the loader may run into an unreadable line within its ten more lines: the same error as without interrupt
+            if i.res.status != unint.status {
+                run.fail(desc.clone(), "interrupt-changes-outcome", format!("interrupted load answered {} but the uninterrupted run answers {}", i.res.status, unint.status));
+            }
+            return;
+        }
+        r
+    } else {
+        run_files(b.prepared, &take_lines(b.files, consumed))
+    };
     // no error from the interruption itself
     if i.res.status != prefix_run.status {
         run.fail(desc.clone(), "interrupt-changes-outcome", format!("interrupted run answered {} but a run over the {} lines consumed before answers {}", i.res.status, consumed, prefix_run.status));
@@ -321,7 +351,9 @@ pub fn run(p: &Params) -> Run {
         // inputs: 1-3 files
         let nm = match rng.below(5) { 0 => rng.below(3), _ => 2 + rng.below(9) };
         let null_pct = *rng.pick(&[5u64, 20, 50]);
-        let main: Vec<String> = (0..nm).map(|_| gen_t_line(&mut rng, null_pct)).collect();
+        let mut main: Vec<String> = (0..nm).map(|_| gen_t_line(&mut rng, null_pct)).collect();
+        // one base case in seven has a line that cannot be read (invalid UTF-8) somewhere in the input
+        if nm > 0 && bi % 7 == 3 { let at = rng.below(nm); main[at] = BAD.to_owned(); }
         let files: Vec<Vec<String>> = match rng.below(3) {
             0 => vec![main.clone()],
             1 => { let c = rng.below(main.len() + 1); vec![main[..c].to_vec(), main[c..].to_vec()] }
@@ -329,16 +361,17 @@ pub fn run(p: &Params) -> Run {
         };
         // joined file long enough to cross the loader's sampling points (10, 20, 30)
         let nj = if with_join { *rng.pick(&[0usize, 3, 9, 10, 11, 12, 19, 20, 21, 25, 31, 34]) } else { 0 };
-        let joined_lines: Vec<String> = (0..nj).map(|_| gen_u_line(&mut rng, 15)).collect();
-        let joined_bytes = join_lines(&joined_lines);
+        let mut joined_lines: Vec<String> = (0..nj).map(|_| gen_u_line(&mut rng, 15)).collect();
+        if nj > 0 && bi % 9 == 5 { let at = rng.below(nj); joined_lines[at] = BAD.to_owned(); }
+        let joined_bytes = join_b(&joined_lines);
         if with_join { std::fs::write(&jpath, &joined_bytes).unwrap(); }
-        let file_bytes: Vec<Vec<u8>> = files.iter().map(|f| join_lines(f)).collect();
+        let file_bytes: Vec<Vec<u8>> = files.iter().map(|f| join_b(f)).collect();
         let unint = run_files(&prepared, &file_bytes);
         run.count(&format!("kind:{}", kind_s));
         run.count(&format!("uninterrupted:{}", unint.status));
         let desc = format!("query={} files={:?} joined_lines={}", query.replace(&jp, "J"), files, nj);
         let shape = format!("{}|j{}|f{}", kind_s, with_join as u8, files.len());
-        let base = Base { prepared: &prepared, is_agg, files: &files, joined: if with_join { Some(&joined_bytes) } else { None }, joined_len: nj, desc: &desc, shape: &shape };
+        let base = Base { prepared: &prepared, is_agg, files: &files, joined: if with_join { Some(&joined_bytes) } else { None }, joined_len: nj, jpath: &jpath, desc: &desc, shape: &shape };
         // every line boundary of the batch loop (k = nm: the point is never reached)
         for k in 0..=nm {
             if nm > 6 && k > 1 && k + 1 < nm && rng.chance(1, 2) { continue; }
@@ -352,7 +385,7 @@ pub fn run(p: &Params) -> Run {
             for m in ms { check_point(&mut run, &base, &unint, Clear::Join(m)); }
         }
         // follow mode (joins are refused there): every delivered-line boundary
-        if !with_join && bi % 4 == 0 && nm <= 8 {
+        if !with_join && bi % 4 == 0 && nm <= 8 && !main.iter().any(|l| l == BAD) {
             check_follow(&mut run, &prepared, &main, &desc, &shape);
         }
         // a printer that clears the flag after its n-th line
